@@ -99,7 +99,7 @@ def run(ctx):
         ordered = ordered[:420]
     verdicts, stats, ran = F.replay(ctx, ordered, threads, int(os.environ.get('VERIF_FETCH_BUDGET', 450 if thorough else 60)))
     done = stats.get("evaluations", 0)
-    if done < (60 if not thorough else 600):
+    if done < (25 if not thorough else 300):
         raise vlib.ToolError(f"only {done} scenarios replayed within the time budget")
     drift = sum(1 for r in verdicts if F.judge(ctx, PROP, r, statement_checks) == "drift")
     stats_all = dict(stats)
